@@ -3,7 +3,7 @@
 The emitted expected-lists are then the specification (committed, hand-owned); c2lean_g.py regenerates Gen/Guards.lean on
 every run and the theorems (by `decide`) fail when a check on a fallible primitive disappears or a flag is dropped."""
 import os, re, sys
-OUT = os.environ.get('C2LEAN_OUT', '/verif/lean')
+OUT = os.environ.get('C2LEAN_OUT', os.path.join(os.path.dirname(os.path.dirname(os.path.abspath(__file__))), 'lean'))
 src = open(os.path.join(OUT, 'SecpZkp/Gen/Guards.lean')).read()
 facts = []
 for m in re.finditer(r'^def (\w+) : List CallFact := \[(.*?)^\]', src, re.S | re.M):
